@@ -46,6 +46,12 @@ pub struct Case {
     pub channels: u8,
     pub pubs: Vec<Pub>,
     pub salt: u64,
+    /// transport write script (short writes / would-block), cycled `wcycles` times: publishes
+    /// must arrive intact however the transport fragments writes, also while closing
+    #[serde(default)]
+    pub wscript: Vec<crate::wire::WStep>,
+    #[serde(default)]
+    pub wcycles: u16,
 }
 
 pub fn negotiated(a: u32, b: u32) -> u32 {
@@ -113,13 +119,25 @@ fn strat(_t: Tier) -> BoxedStrategy<Case> {
                 other_before,
             },
         );
-    (fm(), fm(), 1u8..=3, vec(p, 1..=6), any::<u64>())
-        .prop_map(|(client_frame_max, server_frame_max, channels, pubs, salt)| Case {
+    use crate::wire::WStep;
+    let wstep = prop_oneof![
+        4 => prop::sample::select(vec![1usize, 2, 3, 7, 8, 9]).prop_map(WStep::Accept),
+        4 => (1usize..30_000).prop_map(WStep::Accept),
+        2 => Just(WStep::BlockRearm),
+        1 => Just(WStep::BlockHold),
+    ];
+    // half of the cases run on an unrestricted transport, the others under a cycled write script
+    // that is long enough to be still active when the connection is closed
+    let script = prop_oneof![1 => Just((Vec::new(), 0u16)), 1 => (vec(wstep, 1..40), prop::sample::select(vec![1u16, 10, 200, 2000]))];
+    (fm(), fm(), 1u8..=3, vec(p, 1..=6), any::<u64>(), script)
+        .prop_map(|(client_frame_max, server_frame_max, channels, pubs, salt, (wscript, wcycles))| Case {
             client_frame_max,
             server_frame_max,
             channels,
             pubs,
             salt,
+            wscript,
+            wcycles,
         })
         .boxed()
 }
@@ -139,7 +157,11 @@ pub fn exec(c: &Case) -> Outcome {
     } else {
         fmax as usize - 8
     };
-    let mut sess = open_session(&ccfg, scfg, vec![], AutoBroker::new(c.salt));
+    let mut wscript = Vec::new();
+    for _ in 0..c.wcycles.max(1) {
+        wscript.extend(c.wscript.iter().copied());
+    }
+    let mut sess = open_session(&ccfg, scfg, wscript, AutoBroker::new(c.salt));
     let mut conn = match sess.conn.take() {
         Some(c) => c,
         None => {
@@ -312,6 +334,12 @@ pub fn exec(c: &Case) -> Outcome {
                 "unexpected-extra-frames",
                 format!("channel {} carries {} frames, {} accounted for; next: {:?}", ch, frames.len(), used, frames.get(used).map(|(_, f)| crate::oracle::brief(f))),
             );
+        }
+    }
+    if !c.wscript.is_empty() {
+        labels.push("fragmenting-transport".to_string());
+        if sess.wire.wscript_left() > 0 {
+            labels.push("write-script-active-through-close".to_string());
         }
     }
     labels.sort();
